@@ -145,6 +145,18 @@ class Scratch:
                                 "(crypt-pbkdf1-sha1.c changed shape; update the rule)" % n)
             open(p, "w").write(new)
 
+        # R4: the same for crypt-nthash.c's two never-assigned static pointers.
+        p = os.path.join(lib, "crypt-nthash.c")
+        if os.path.exists(p):
+            txt = open(p).read()
+            new, n1 = re.subn(r"static const char \*magic = ", "static const char *const magic = ", txt)
+            new, n2 = re.subn(r"static const uint8_t \*hexconvtab = ", "static const uint8_t *const hexconvtab = ", new)
+            self.rules["R4 crypt-nthash.c 'static const T *magic/hexconvtab' -> '*const'"] = n1 + n2
+            if (n1, n2) != (1, 1):
+                raise ToolError("rewrite rule R4 fired %d+%d times, expected 1+1 "
+                                "(crypt-nthash.c changed shape; update the rule)" % (n1, n2))
+            open(p, "w").write(new)
+
     def tree_hash(self):
         h = hashlib.sha256()
         for root, _, files in sorted(os.walk(self.src)):
